@@ -324,19 +324,35 @@ fn split_tokens_by_pipes(tokens: &[Token]) -> Vec<Tokens> {
     cmds
 }
 
-/// `<file` and `<<<word` written without a space after the operator are
-/// taken apart into the operator and its operand.
+/// `<` and `<<<` written without a space on either side (`cat<file`,
+/// `<file`, `cat <<<word`) are taken apart into the word in front, the
+/// operator and its operand.
 fn split_glued_input_redirections(tokens: &Tokens) -> Tokens {
     let mut result = Vec::new();
     for (sep, text) in tokens.iter() {
-        if sep.is_empty() && text.len() > 3 && text.starts_with("<<<") {
-            result.push((String::new(), "<<<".to_string()));
-            result.push((String::new(), text[3..].to_string()));
-        } else if sep.is_empty() && text.len() > 1 && text.starts_with('<') && !text.starts_with("<<") {
-            result.push((String::new(), "<".to_string()));
-            result.push((String::new(), text[1..].to_string()));
-        } else {
+        let pos = match text.find('<') {
+            Some(pos) if sep.is_empty() && text != "<" && text != "<<<" => pos,
+            _ => {
+                result.push((sep.clone(), text.clone()));
+                continue;
+            }
+        };
+        let rest = &text[pos..];
+        let op = if rest.starts_with("<<<") {
+            "<<<"
+        } else if rest.starts_with("<<") {
+            // not an operator of this shell: the word stays as it is
             result.push((sep.clone(), text.clone()));
+            continue;
+        } else {
+            "<"
+        };
+        if pos > 0 {
+            result.push((String::new(), text[..pos].to_string()));
+        }
+        result.push((String::new(), op.to_string()));
+        if rest.len() > op.len() {
+            result.push((String::new(), rest[op.len()..].to_string()));
         }
     }
     result
